@@ -974,9 +974,25 @@ def rule_remove_by_identity(em, rep, rid, sm=None):
                   'reports a removal is dominated by a test that the clause is still in the freshly read list')
     sm = sm or StoreModel(em)
     n = 0
+    fact = em.repo.cls('engine', 'Answer')
+    by_value = em.repo.lookup_method(fact, '__eq__')
     for f in em.repo.all_functions(('engine',)):
         if not f.is_generator or not sm.publish_calls(f):
             continue
+        if by_value is not None:
+            # membership, remove(), index(), count(), == on clause objects use Answer.__eq__: equal facts are taken for the same fact
+            loopv = {x.id for s in own_nodes(f.node) if isinstance(s, ast.For) for x in ast.walk(s.target) if isinstance(x, ast.Name)}
+            for x in own_nodes_ordered(f.node):
+                hit = None
+                if isinstance(x, ast.Compare) and isinstance(x.ops[0], (ast.In, ast.NotIn, ast.Eq, ast.NotEq)) and is_name(x.left) and x.left.id in loopv:
+                    hit = x
+                if isinstance(x, ast.Call) and isinstance(x.func, ast.Attribute) and x.func.attr in ('remove', 'index', 'count') and x.args and \
+                        is_name(x.args[0]) and x.args[0].id in loopv:
+                    hit = x
+                if hit is not None:
+                    rep.violation(rid, '%s:%s' % (f.qname, norm(hit)), 'the clause to remove is found by equality (%s uses %s.__eq__, which compares '
+                                  'contents): a different fact with the same arguments - e.g. one added while the retract was suspended - is '
+                                  'taken for the one that was matched, and is removed or reported in its place' % (norm(hit)[:40], fact.name), f.loc(hit))
         n += 1
         cfg = em.cfg(f)
         key = f.qname
